@@ -1,5 +1,5 @@
 import Gms.Driver.Proto
-import Gms.Model.Store
+import Gms.Model.StoreStr
 open Gms.Proto Gms.Num Gms.Conv Gms.Store
 
 def val? : Sexp → Option Val
@@ -45,6 +45,7 @@ def cellText (t : Ty) : Stored → String
     match t with
     | .dec _ s _ => if s = 0 then toString v else toString v ++ "." ++ padLeft "" s
     | .int .u24 => toString (min v (2 ^ 24))      -- `SQLUint24` clamps what it prints at 1<<24
+    | .int .i24 => toString (max (-(2 ^ 23)) (min v (2 ^ 23 - 1)))   -- `SQLInt24` clamps what it prints
     | _ => toString v
   | .dec c sc =>
     let s := t.scale
@@ -54,7 +55,8 @@ def cellText (t : Ty) : Stored → String
     if c' < 0 then "-" ++ body else body
 
 def regionOf (t : Ty) (v : Val) : String :=
-  if unsigned_underflow_wraps t v then "unsigned_underflow_wraps"
+  if sign_only_or_empty_string_as_zero t v then "sign_only_or_empty_string_as_zero"
+  else if unsigned_underflow_wraps t v then "unsigned_underflow_wraps"
   else if bit_negative_reinterpreted t v then "bit_negative_reinterpreted"
   else if year_decimal_beyond_int64_becomes_zero t v then "year_decimal_beyond_int64_becomes_zero"
   else "-"
@@ -66,7 +68,7 @@ def convCase (t : Ty) (v : Val) : String :=
   let impl := cresStr r ++ " | " ++ r2s
   -- idempotence demanded by the property: the second conversion returns the same value, InRange, no error
   let idemOK := !again || (convert t (inject t r.val) == ⟨r.val, .inRange, .none⟩)
-  match acceptableConvert t v r with
+  match acceptableConvertS t v r with
   | none => if idemOK then answer impl "?" else answer impl "not-idempotent" (regionOf t v)
   | some true => if idemOK then answer impl else answer impl "not-idempotent" (regionOf t v)
   | some false => answer impl "exact-or-reported-nearest" (regionOf t v)
@@ -88,11 +90,32 @@ def insCase (mode : String) (t : Ty) (v : Val) : String :=
   | none => answer impl "?"
   | some true => answer impl
 
+/-- `INSERT [IGNORE]` of a string literal into an integer column (round-mode path) -/
+def sinsCase (mode : String) (it : ITy) (bs : List UInt8) : String :=
+  let ignore := mode == "ignore"
+  if !roundModelled bs then answer "text-outside-the-round-mode-model"
+  else
+    let o := insertStr ignore it bs
+    let impl := outcomeStr (.int it) o
+    if acceptableStrOutcome ignore it bs o then answer impl
+    else
+      let region :=
+        if sign_only_or_empty_string_as_zero (.int it) (.s bs) then "sign_only_or_empty_string_as_zero"
+        else if unsigned_underflow_wraps (.int it) (.s bs) then "unsigned_underflow_wraps"
+        else if string_via_float64 it bs then "string_via_float64"
+        else if truncated_string_skips_range_check it bs then "truncated_string_skips_range_check"
+        else "-"
+      answer impl (if ignore then "nearest-with-warning-or-exact" else "exact-or-rejected") region
+
 def handle (p : List Sexp) : String :=
   match p with
   | [.list [.atom "conv", t, v]] =>
     match ty? t, val? v with
     | some t, some v => convCase t v
+    | _, _ => answer "bad-case"
+  | [.list [.atom "sins", .atom mode, .list [.atom "int", .atom t], .list [.atom "s", b]]] =>
+    match ITy.ofName? t, b.bytes? with
+    | some it, some bs => sinsCase mode it bs
     | _, _ => answer "bad-case"
   | [.list [.atom "ins", .atom mode, t, v]] =>
     match ty? t, val? v with
